@@ -139,17 +139,18 @@ def parseInit? (init : String) : Option Reading :=
       pure ⟨u, s, e⟩
     | _ => none
 
-def parseCall? (s : String) : Option Call :=
-  if s = "z" then some Call.resetCall
-  else if s.startsWith "r" && s.length > 1 then some (Call.recordReading (s.drop 1).toString)
+def parseCall? (s : String) : Option MCall :=
+  if s = "z" then some resetCall
+  else if s.startsWith "r" && s.length > 1 then some (recordCall (s.drop 1).toString)
   else none
 
-def parseEv? (s : String) : Option Ev :=
-  if s.startsWith "+" then (parseNat? (s.drop 1).toString).map Ev.tick
-  else (parseNat? s).map Ev.step
+def parseEv? (s : String) : Option Gau.Ev :=
+  if s.startsWith "+" then (parseNat? (s.drop 1).toString).map Gau.Ev.tick
+  else (parseNat? s).map Gau.Ev.step
 
-def showRes : Res → String
+def showRes : Gau.Res Reading Unit → String
   | .ok r => "ok=" ++ showReading r
+  | .err _ => "err"
   | .aborted => "Aborted"
 
 def encAmp (xs : List String) : String := if xs.isEmpty then "-" else "&".intercalate xs
@@ -176,10 +177,10 @@ def handle? (toks : List String) : Option String :=
     let init ← parseInit? init
     let progs ← (progs.splitOn "|").mapM (fun p => (decListC p).mapM parseCall?)
     let sched ← (decListC sched).mapM parseEv?
-    let c0 : Cfg := ⟨newModel init t0, t0, progs.map Thread.ofCalls⟩
+    let c0 : MCfg := ⟨newModel init t0, t0, progs.map Gau.Thread.ofCalls⟩
     let c1 := c0.run sched
-    let c2 := c1.run (drainSched c1.threads)
-    let showTh (p : List Call × Thread) : String :=
+    let c2 := c1.run (Gau.drainSched c1.threads)
+    let showTh (p : List MCall × MThread) : String :=
       (if p.2.cur.isSome || !p.2.todo.isEmpty then "unfinished:" else "") ++
       encAmp (p.2.results.reverse.map showRes) ++ ":" ++ encAmp (p.1.map (fun c => if c.early then "crl" else "rcl"))
     pure (showReading c2.store ++ "#" ++ ";".intercalate ((progs.zip c2.threads).map showTh))
